@@ -6,6 +6,7 @@ import (
 
 	"github.com/golang/protobuf/proto"
 	"github.com/idena-network/idena-go/common"
+	"github.com/idena-network/idena-go/vm/wasm"
 	"github.com/idena-network/idena-go/vm/wasm/testdata"
 	models "github.com/idena-network/idena-wasm-binding/lib/protobuf"
 )
@@ -95,7 +96,40 @@ type actionNode struct {
 	GasUsed  uint64
 	GasLimit uint64
 	Contract common.Address
+	Code     []byte // deployment actions: what the VM derives the new contract's address from
+	Args     []byte
+	Nonce    []byte
 	Subs     []*actionNode
+}
+
+const (
+	actionCall   = 1
+	actionDeploy = 3
+)
+
+// target is the contract the action runs on; for a deployment the address it creates, computed the way the VM does
+// (hash of code hash, packed arguments, nonce) when the result does not name it.
+func (n *actionNode) target() common.Address {
+	if n.Type == actionDeploy && len(n.Code) > 0 {
+		a := wasm.ComputeContractAddr(n.Code, n.Args, n.Nonce)
+		if n.Contract.IsEmpty() {
+			return a
+		}
+	}
+	return n.Contract
+}
+
+// walkEff visits every node with the information whether it took effect: an action's writes survive only if the action
+// and all the actions that enclose it succeeded.
+func (n *actionNode) walkEff(f func(x *actionNode, depth int, effective bool), depth int, parentEff bool) {
+	if n == nil {
+		return
+	}
+	eff := parentEff && n.Success
+	f(n, depth, eff)
+	for _, s := range n.Subs {
+		s.walkEff(f, depth+1, eff)
+	}
 }
 
 func decodeActionResult(data []byte) *actionNode {
@@ -117,6 +151,7 @@ func toNode(a *models.ActionResult) *actionNode {
 		n.Method = a.InputAction.Method
 		n.Amount.SetBytes(a.InputAction.Amount)
 		n.GasLimit = a.InputAction.GasLimit
+		n.Code, n.Args, n.Nonce = a.InputAction.Code, a.InputAction.Args, a.InputAction.Nonce
 	}
 	for _, s := range a.SubActionResults {
 		n.Subs = append(n.Subs, toNode(s))
